@@ -94,8 +94,9 @@ class Check:
                 kv["size"] = rng.choice([0, 1, 9, 10, 4095, 2 ** 31, 2 ** 32 + 1, 2 ** 40 + 3])
             if rng.random() < 0.4:
                 kv["blocks"] = rng.choice([0, 8, 16, 2 ** 32, 12345678])
-            if rng.random() < 0.4:
-                kv["atime"] = rng.choice([0, 86399, 951782400, 1700000000, 2147483648, rng.randrange(0, 2 ** 32)]) * 10 ** 9
+            # the access time is always a simulated answer: the real one is changed by the run itself
+            # (following a link or reading a directory updates it), i.e. it is a clock the simulator must own
+            kv["atime"] = rng.choice([0, 86399, 951782400, 1700000000, 2147483648, rng.randrange(0, 2 ** 32)]) * 10 ** 9
             if rng.random() < 0.4:
                 kv["btime"] = rng.choice([1, 86400, 1583020799, 1700000001, 4102444800, rng.randrange(0, 2 ** 32)]) * 10 ** 9
             if rng.random() < 0.5:
@@ -281,11 +282,13 @@ class Check:
                     "user": users.get(str(uid), ""), "group": groups.get(str(gid), ""),
                     "inode": str(ov.get("ino", st.st_ino)), "hardlinks": str(ov.get("nlink", st.st_nlink)), "blocks": str(ov.get("blocks", st.st_blocks)),
                     "modified": datetime.datetime.fromtimestamp(mt // 10 ** 9, tz).strftime("%Y-%m-%d %H:%M:%S"),
-                    "accessed": datetime.datetime.fromtimestamp(ov.get("atime", st.st_atime_ns) // 10 ** 9, tz).strftime("%Y-%m-%d %H:%M:%S"),
+
                     "mode": statmod.filemode(st.st_mode),
                     "is_symlink": "true" if statmod.S_ISLNK(st.st_mode) else "false",
                     "is_hidden": "true" if path.rsplit("/", 1)[-1].startswith(".") else "false",
                 }
+                if "atime" in ov:  # asserted only for a simulated answer (the real atime is moved by the run itself)
+                    want["accessed"] = datetime.datetime.fromtimestamp(ov["atime"] // 10 ** 9, tz).strftime("%Y-%m-%d %H:%M:%S")
                 if "btime" in ov:
                     want["created"] = datetime.datetime.fromtimestamp(ov["btime"] // 10 ** 9, tz).strftime("%Y-%m-%d %H:%M:%S")
                 if statmod.S_ISDIR(st.st_mode):
